@@ -166,15 +166,17 @@ CLAIMED = {
         ref="DESIGN.md C18"),
     "C20": dict(
         text="PARTIAL. Bounded symbolic model checking of the Python side of the Voronoi wrappers with the compiled tessellation "
-             "replaced by an arbitrary one (fresh positive volumes per call, inputs recorded): convert_configuration centres every "
-             "frame on its own box for any origin and pads z=0 in 2D; VolumeMatrix uses the requested frame, displaces exactly one "
-             "coordinate of one particle by +-deltar about the centred position and restores it, forms central differences, the "
-             "self term from translation invariance (every row sums to zero over each displaced coordinate) and normalises by the "
-             "unperturbed volume.",
-        note="NOT claimed: everything the property says about the tessellation itself (listing, symmetric neighbour relation, "
-             "positive equal weights, volumes summing to the box) - it is computed inside the compiled freud extension, where "
-             "symbolic execution stops - and the %d/%.6f text format of cal_neighbors' files (no real-valued branching; left to "
-             "the repository's tests). N<=4 (5 thorough), F<=2 (3), transform_matrix=False.",
+             "replaced by a stub (arbitrary positive volumes per call for VolumeMatrix; enumerated neighbour topologies with decimal "
+             "weights for cal_neighbors; every call's inputs recorded): convert_configuration centres every frame on its own box "
+             "for any origin and pads z=0 in 2D; cal_neighbors writes one header per frame, every particle once in id order with "
+             "ids from one, cn = listed neighbours = listed weights, the library's neighbours/weights/volumes in its order, files "
+             "readable by read_neighbors; VolumeMatrix uses the requested frame, displaces exactly one coordinate of one particle "
+             "by +-deltar about the centred position and restores it, central differences, self term from translation invariance "
+             "(rows sum to zero per displaced coordinate), normalisation by the unperturbed volume.",
+        note="NOT decided symbolically: what the property says about the tessellation itself (symmetric relation, positive equal "
+             "weights, volumes summing to the box) - computed inside the compiled freud extension where symbolic execution stops; "
+             "these clauses are only observed on the real library's output in the concrete replay of each path (sampling). "
+             "N=4 (5), F<=2 (3), transform_matrix=False.",
         ref="DESIGN.md C20"),
 }
 
